@@ -87,6 +87,34 @@ impl From<core::str::Utf8Error> for SeError {
 //@end
 }
 
+
+/// ---- primitives: booleans, numbers, characters (C13: what reaches the output for them; C19: how it is classified) ----
+/// the text of a number: std's `Display` for the integer and float types (A-display, assumed): an uninterpreted function
+/// of the value, never empty, made of characters that are neither markup, quotes nor whitespace -- digits, sign, `.`, `e`/`E`,
+/// `inf`, `NaN` -- so it needs no escaping in any position
+pub trait NumDisplay: Sized {}
+impl NumDisplay for i8 {} impl NumDisplay for i16 {} impl NumDisplay for i32 {} impl NumDisplay for i64 {}
+impl NumDisplay for u8 {} impl NumDisplay for u16 {} impl NumDisplay for u32 {} impl NumDisplay for u64 {}
+impl NumDisplay for f32 {} impl NumDisplay for f64 {}
+pub uninterp spec fn disp<T>(v: T) -> BSeq;
+pub open spec fn plain_byte(b: u8) -> bool {
+    b != 0x3c && b != 0x3e && b != 0x26 && b != 0x22 && b != 0x27 && b != 0x20 && b != 0x09 && b != 0x0a && b != 0x0d
+}
+pub open spec fn plain(s: BSeq) -> bool { s.len() > 0 && forall|k: int| 0 <= k < s.len() ==> plain_byte(#[trigger] s[k]) }
+/// declared rewrite `&value.to_string()` ==> `disp_(value)` in the numeric methods: the `String` of `ToString` is not
+/// modelled; the stand-in hands out its text
+#[verifier::external_body]
+pub fn disp_<T: NumDisplay>(v: T) -> (r: &'static str)
+    ensures r.spec_bytes() == disp(v), plain(disp(v))
+{ unimplemented!() }
+/// the same for `char` (`char::to_string`): the one-character string
+#[verifier::external_body]
+pub fn disp_char_(c: char) -> (r: &'static str)
+    ensures r@ == seq![c], r.spec_bytes() == char_bytes(c)
+{ unimplemented!() }
+pub open spec fn char_bytes(c: char) -> BSeq { encode_utf8(seq![c]) }
+pub open spec fn bool_text(v: bool) -> BSeq { if v { "true".spec_bytes() } else { "false".spec_bytes() } }
+
 /// N15: the text of an error message (not interpreted by any contract)
 #[verifier::external_body]
 pub fn errmsg_() -> Cow<'static, str> { Cow::Borrowed("") }
@@ -121,6 +149,32 @@ pub trait Serializer: Sized {
     type SerializeStruct;
     type SerializeMap;
     spec fn ok(&self) -> bool;
+    #[verifier::external_body]
+    fn serialize_bool(self, v: bool) -> Result<Self::Ok, Self::Error> requires self.ok() { unimplemented!() }
+    #[verifier::external_body]
+    fn serialize_i8(self, v: i8) -> Result<Self::Ok, Self::Error> requires self.ok() { unimplemented!() }
+    #[verifier::external_body]
+    fn serialize_i16(self, v: i16) -> Result<Self::Ok, Self::Error> requires self.ok() { unimplemented!() }
+    #[verifier::external_body]
+    fn serialize_i32(self, v: i32) -> Result<Self::Ok, Self::Error> requires self.ok() { unimplemented!() }
+    #[verifier::external_body]
+    fn serialize_i64(self, v: i64) -> Result<Self::Ok, Self::Error> requires self.ok() { unimplemented!() }
+    #[verifier::external_body]
+    fn serialize_u8(self, v: u8) -> Result<Self::Ok, Self::Error> requires self.ok() { unimplemented!() }
+    #[verifier::external_body]
+    fn serialize_u16(self, v: u16) -> Result<Self::Ok, Self::Error> requires self.ok() { unimplemented!() }
+    #[verifier::external_body]
+    fn serialize_u32(self, v: u32) -> Result<Self::Ok, Self::Error> requires self.ok() { unimplemented!() }
+    #[verifier::external_body]
+    fn serialize_u64(self, v: u64) -> Result<Self::Ok, Self::Error> requires self.ok() { unimplemented!() }
+    #[verifier::external_body]
+    fn serialize_f32(self, v: f32) -> Result<Self::Ok, Self::Error> requires self.ok() { unimplemented!() }
+    #[verifier::external_body]
+    fn serialize_f64(self, v: f64) -> Result<Self::Ok, Self::Error> requires self.ok() { unimplemented!() }
+    #[verifier::external_body]
+    fn serialize_char(self, v: char) -> Result<Self::Ok, Self::Error> requires self.ok() { unimplemented!() }
+    #[verifier::external_body]
+    fn serialize_bytes(self, v: &[u8]) -> Result<Self::Ok, Self::Error> requires self.ok() { unimplemented!() }
     #[verifier::external_body]
     fn serialize_str(self, value: &str) -> Result<Self::Ok, Self::Error> requires self.ok() { unimplemented!() }
     #[verifier::external_body]
@@ -670,6 +724,98 @@ impl<'w, W: Write> Serializer for TextSerializer<&'w mut W> {
             self.0.serialize_str(value)
         }
 //@end
+//@extract text::TextSerializer::serialize_bool | src/se/text.rs :: impl<W: Write> Serializer for TextSerializer<W> :: invoke write_primitive :: fn serialize_bool | serves=C13 features=serialize
+        fn serialize_bool(self, value: bool) -> (r: Result<Self::Ok, Self::Error>)
+            ensures r matches Ok(w) ==> (*w).out() == (*old(self.0.writer)).out() + bool_text(value) && *final(w) == *final(self.0.writer),
+        {
+            self.0.serialize_bool(value)
+        }
+//@end
+//@extract text::TextSerializer::serialize_i8 | src/se/text.rs :: impl<W: Write> Serializer for TextSerializer<W> :: invoke write_primitive :: fn serialize_i8 | serves=C13 features=serialize
+        fn serialize_i8(self, value: i8) -> (r: Result<Self::Ok, Self::Error>)
+            ensures r matches Ok(w) ==> (*w).out() == (*old(self.0.writer)).out() + disp(value) && *final(w) == *final(self.0.writer),
+        {
+            self.0.serialize_i8(value)
+        }
+//@end
+//@extract text::TextSerializer::serialize_i16 | src/se/text.rs :: impl<W: Write> Serializer for TextSerializer<W> :: invoke write_primitive :: fn serialize_i16 | serves=C13 features=serialize
+        fn serialize_i16(self, value: i16) -> (r: Result<Self::Ok, Self::Error>)
+            ensures r matches Ok(w) ==> (*w).out() == (*old(self.0.writer)).out() + disp(value) && *final(w) == *final(self.0.writer),
+        {
+            self.0.serialize_i16(value)
+        }
+//@end
+//@extract text::TextSerializer::serialize_i32 | src/se/text.rs :: impl<W: Write> Serializer for TextSerializer<W> :: invoke write_primitive :: fn serialize_i32 | serves=C13 features=serialize
+        fn serialize_i32(self, value: i32) -> (r: Result<Self::Ok, Self::Error>)
+            ensures r matches Ok(w) ==> (*w).out() == (*old(self.0.writer)).out() + disp(value) && *final(w) == *final(self.0.writer),
+        {
+            self.0.serialize_i32(value)
+        }
+//@end
+//@extract text::TextSerializer::serialize_i64 | src/se/text.rs :: impl<W: Write> Serializer for TextSerializer<W> :: invoke write_primitive :: fn serialize_i64 | serves=C13 features=serialize
+        fn serialize_i64(self, value: i64) -> (r: Result<Self::Ok, Self::Error>)
+            ensures r matches Ok(w) ==> (*w).out() == (*old(self.0.writer)).out() + disp(value) && *final(w) == *final(self.0.writer),
+        {
+            self.0.serialize_i64(value)
+        }
+//@end
+//@extract text::TextSerializer::serialize_u8 | src/se/text.rs :: impl<W: Write> Serializer for TextSerializer<W> :: invoke write_primitive :: fn serialize_u8 | serves=C13 features=serialize
+        fn serialize_u8(self, value: u8) -> (r: Result<Self::Ok, Self::Error>)
+            ensures r matches Ok(w) ==> (*w).out() == (*old(self.0.writer)).out() + disp(value) && *final(w) == *final(self.0.writer),
+        {
+            self.0.serialize_u8(value)
+        }
+//@end
+//@extract text::TextSerializer::serialize_u16 | src/se/text.rs :: impl<W: Write> Serializer for TextSerializer<W> :: invoke write_primitive :: fn serialize_u16 | serves=C13 features=serialize
+        fn serialize_u16(self, value: u16) -> (r: Result<Self::Ok, Self::Error>)
+            ensures r matches Ok(w) ==> (*w).out() == (*old(self.0.writer)).out() + disp(value) && *final(w) == *final(self.0.writer),
+        {
+            self.0.serialize_u16(value)
+        }
+//@end
+//@extract text::TextSerializer::serialize_u32 | src/se/text.rs :: impl<W: Write> Serializer for TextSerializer<W> :: invoke write_primitive :: fn serialize_u32 | serves=C13 features=serialize
+        fn serialize_u32(self, value: u32) -> (r: Result<Self::Ok, Self::Error>)
+            ensures r matches Ok(w) ==> (*w).out() == (*old(self.0.writer)).out() + disp(value) && *final(w) == *final(self.0.writer),
+        {
+            self.0.serialize_u32(value)
+        }
+//@end
+//@extract text::TextSerializer::serialize_u64 | src/se/text.rs :: impl<W: Write> Serializer for TextSerializer<W> :: invoke write_primitive :: fn serialize_u64 | serves=C13 features=serialize
+        fn serialize_u64(self, value: u64) -> (r: Result<Self::Ok, Self::Error>)
+            ensures r matches Ok(w) ==> (*w).out() == (*old(self.0.writer)).out() + disp(value) && *final(w) == *final(self.0.writer),
+        {
+            self.0.serialize_u64(value)
+        }
+//@end
+//@extract text::TextSerializer::serialize_f32 | src/se/text.rs :: impl<W: Write> Serializer for TextSerializer<W> :: invoke write_primitive :: fn serialize_f32 | serves=C13 features=serialize
+        fn serialize_f32(self, value: f32) -> (r: Result<Self::Ok, Self::Error>)
+            ensures r matches Ok(w) ==> (*w).out() == (*old(self.0.writer)).out() + disp(value) && *final(w) == *final(self.0.writer),
+        {
+            self.0.serialize_f32(value)
+        }
+//@end
+//@extract text::TextSerializer::serialize_f64 | src/se/text.rs :: impl<W: Write> Serializer for TextSerializer<W> :: invoke write_primitive :: fn serialize_f64 | serves=C13 features=serialize
+        fn serialize_f64(self, value: f64) -> (r: Result<Self::Ok, Self::Error>)
+            ensures r matches Ok(w) ==> (*w).out() == (*old(self.0.writer)).out() + disp(value) && *final(w) == *final(self.0.writer),
+        {
+            self.0.serialize_f64(value)
+        }
+//@end
+//@extract text::TextSerializer::serialize_char | src/se/text.rs :: impl<W: Write> Serializer for TextSerializer<W> :: invoke write_primitive :: fn serialize_char | serves=C13 features=serialize
+        fn serialize_char(self, value: char) -> (r: Result<Self::Ok, Self::Error>)
+            ensures // C13: a character in a `$text` field is written ONLY through the escaping table of its position
+                r matches Ok(w) ==> (*w).out() == (*old(self.0.writer)).out() + spec_escape(char_bytes(value), p_list(self.0.target, self.0.level)) && *final(w) == *final(self.0.writer),
+        {
+            self.0.serialize_char(value)
+        }
+//@end
+//@extract text::TextSerializer::serialize_bytes | src/se/text.rs :: impl<W: Write> Serializer for TextSerializer<W> :: invoke write_primitive :: fn serialize_bytes | serves=C13 features=serialize
+        fn serialize_bytes(self, value: &[u8]) -> (r: Result<Self::Ok, Self::Error>)
+            ensures r is Err, *final(self.0.writer) == *old(self.0.writer),
+        {
+            self.0.serialize_bytes(value)
+        }
+//@end
 //@extract text::TextSerializer::serialize_none | src/se/text.rs :: impl<W: Write> Serializer for TextSerializer<W> :: fn serialize_none | serves=C13 features=serialize
     fn serialize_none(self) -> Result<Self::Ok, Self::Error> {
         self.0.serialize_none()
@@ -799,6 +945,153 @@ impl<'w, W: Write> Serializer for SimpleTypeSerializer<&'w mut W> {
         Ok(self.writer)
     }
 //@end
+//@extract simple_type::SimpleTypeSerializer::serialize_bool | src/se/simple_type.rs :: impl<W: Write> Serializer for SimpleTypeSerializer<W> :: invoke write_primitive :: fn serialize_bool | serves=C13 features=serialize macro_files=src/se/mod.rs
+        fn serialize_bool(self, value: bool) -> (r: Result<Self::Ok, Self::Error>)
+            ensures r matches Ok(w) ==> (*w).out() == (*old(self.writer)).out() + bool_text(value) && *final(w) == *final(self.writer),
+        { let mut self__ = self;
+            self__.write_str(if value { "true" } else { "false" })?;
+            Ok(self__.writer)
+        }
+//@end
+//@extract simple_type::SimpleTypeSerializer::serialize_i8 | src/se/simple_type.rs :: impl<W: Write> Serializer for SimpleTypeSerializer<W> :: invoke write_primitive :: invoke write_primitive :: fn serialize_i8 | serves=C13 features=serialize macro_files=src/se/mod.rs
+//@rewrite &value.to_string() ==> disp_(value)
+        fn serialize_i8(self, value: i8) -> (r: Result<Self::Ok, Self::Error>)
+            ensures // a number is its display text, which needs no escaping in any position (A-display)
+                r matches Ok(w) ==> (*w).out() == (*old(self.writer)).out() + disp(value) && *final(w) == *final(self.writer),
+        { let mut self__ = self;
+            self__.write_str(disp_(value))?;
+            Ok(self__.writer)
+        }
+//@end
+//@extract simple_type::SimpleTypeSerializer::serialize_i16 | src/se/simple_type.rs :: impl<W: Write> Serializer for SimpleTypeSerializer<W> :: invoke write_primitive :: invoke write_primitive :: fn serialize_i16 | serves=C13 features=serialize macro_files=src/se/mod.rs
+//@rewrite &value.to_string() ==> disp_(value)
+        fn serialize_i16(self, value: i16) -> (r: Result<Self::Ok, Self::Error>)
+            ensures // a number is its display text, which needs no escaping in any position (A-display)
+                r matches Ok(w) ==> (*w).out() == (*old(self.writer)).out() + disp(value) && *final(w) == *final(self.writer),
+        { let mut self__ = self;
+            self__.write_str(disp_(value))?;
+            Ok(self__.writer)
+        }
+//@end
+//@extract simple_type::SimpleTypeSerializer::serialize_i32 | src/se/simple_type.rs :: impl<W: Write> Serializer for SimpleTypeSerializer<W> :: invoke write_primitive :: invoke write_primitive :: fn serialize_i32 | serves=C13 features=serialize macro_files=src/se/mod.rs
+//@rewrite &value.to_string() ==> disp_(value)
+        fn serialize_i32(self, value: i32) -> (r: Result<Self::Ok, Self::Error>)
+            ensures // a number is its display text, which needs no escaping in any position (A-display)
+                r matches Ok(w) ==> (*w).out() == (*old(self.writer)).out() + disp(value) && *final(w) == *final(self.writer),
+        { let mut self__ = self;
+            self__.write_str(disp_(value))?;
+            Ok(self__.writer)
+        }
+//@end
+//@extract simple_type::SimpleTypeSerializer::serialize_i64 | src/se/simple_type.rs :: impl<W: Write> Serializer for SimpleTypeSerializer<W> :: invoke write_primitive :: invoke write_primitive :: fn serialize_i64 | serves=C13 features=serialize macro_files=src/se/mod.rs
+//@rewrite &value.to_string() ==> disp_(value)
+        fn serialize_i64(self, value: i64) -> (r: Result<Self::Ok, Self::Error>)
+            ensures // a number is its display text, which needs no escaping in any position (A-display)
+                r matches Ok(w) ==> (*w).out() == (*old(self.writer)).out() + disp(value) && *final(w) == *final(self.writer),
+        { let mut self__ = self;
+            self__.write_str(disp_(value))?;
+            Ok(self__.writer)
+        }
+//@end
+//@extract simple_type::SimpleTypeSerializer::serialize_u8 | src/se/simple_type.rs :: impl<W: Write> Serializer for SimpleTypeSerializer<W> :: invoke write_primitive :: invoke write_primitive :: fn serialize_u8 | serves=C13 features=serialize macro_files=src/se/mod.rs
+//@rewrite &value.to_string() ==> disp_(value)
+        fn serialize_u8(self, value: u8) -> (r: Result<Self::Ok, Self::Error>)
+            ensures // a number is its display text, which needs no escaping in any position (A-display)
+                r matches Ok(w) ==> (*w).out() == (*old(self.writer)).out() + disp(value) && *final(w) == *final(self.writer),
+        { let mut self__ = self;
+            self__.write_str(disp_(value))?;
+            Ok(self__.writer)
+        }
+//@end
+//@extract simple_type::SimpleTypeSerializer::serialize_u16 | src/se/simple_type.rs :: impl<W: Write> Serializer for SimpleTypeSerializer<W> :: invoke write_primitive :: invoke write_primitive :: fn serialize_u16 | serves=C13 features=serialize macro_files=src/se/mod.rs
+//@rewrite &value.to_string() ==> disp_(value)
+        fn serialize_u16(self, value: u16) -> (r: Result<Self::Ok, Self::Error>)
+            ensures // a number is its display text, which needs no escaping in any position (A-display)
+                r matches Ok(w) ==> (*w).out() == (*old(self.writer)).out() + disp(value) && *final(w) == *final(self.writer),
+        { let mut self__ = self;
+            self__.write_str(disp_(value))?;
+            Ok(self__.writer)
+        }
+//@end
+//@extract simple_type::SimpleTypeSerializer::serialize_u32 | src/se/simple_type.rs :: impl<W: Write> Serializer for SimpleTypeSerializer<W> :: invoke write_primitive :: invoke write_primitive :: fn serialize_u32 | serves=C13 features=serialize macro_files=src/se/mod.rs
+//@rewrite &value.to_string() ==> disp_(value)
+        fn serialize_u32(self, value: u32) -> (r: Result<Self::Ok, Self::Error>)
+            ensures // a number is its display text, which needs no escaping in any position (A-display)
+                r matches Ok(w) ==> (*w).out() == (*old(self.writer)).out() + disp(value) && *final(w) == *final(self.writer),
+        { let mut self__ = self;
+            self__.write_str(disp_(value))?;
+            Ok(self__.writer)
+        }
+//@end
+//@extract simple_type::SimpleTypeSerializer::serialize_u64 | src/se/simple_type.rs :: impl<W: Write> Serializer for SimpleTypeSerializer<W> :: invoke write_primitive :: invoke write_primitive :: fn serialize_u64 | serves=C13 features=serialize macro_files=src/se/mod.rs
+//@rewrite &value.to_string() ==> disp_(value)
+        fn serialize_u64(self, value: u64) -> (r: Result<Self::Ok, Self::Error>)
+            ensures // a number is its display text, which needs no escaping in any position (A-display)
+                r matches Ok(w) ==> (*w).out() == (*old(self.writer)).out() + disp(value) && *final(w) == *final(self.writer),
+        { let mut self__ = self;
+            self__.write_str(disp_(value))?;
+            Ok(self__.writer)
+        }
+//@end
+//@extract simple_type::SimpleTypeSerializer::serialize_f32 | src/se/simple_type.rs :: impl<W: Write> Serializer for SimpleTypeSerializer<W> :: invoke write_primitive :: invoke write_primitive :: fn serialize_f32 | serves=C13 features=serialize macro_files=src/se/mod.rs
+//@rewrite &value.to_string() ==> disp_(value)
+        fn serialize_f32(self, value: f32) -> (r: Result<Self::Ok, Self::Error>)
+            ensures // a number is its display text, which needs no escaping in any position (A-display)
+                r matches Ok(w) ==> (*w).out() == (*old(self.writer)).out() + disp(value) && *final(w) == *final(self.writer),
+        { let mut self__ = self;
+            self__.write_str(disp_(value))?;
+            Ok(self__.writer)
+        }
+//@end
+//@extract simple_type::SimpleTypeSerializer::serialize_f64 | src/se/simple_type.rs :: impl<W: Write> Serializer for SimpleTypeSerializer<W> :: invoke write_primitive :: invoke write_primitive :: fn serialize_f64 | serves=C13 features=serialize macro_files=src/se/mod.rs
+//@rewrite &value.to_string() ==> disp_(value)
+        fn serialize_f64(self, value: f64) -> (r: Result<Self::Ok, Self::Error>)
+            ensures // a number is its display text, which needs no escaping in any position (A-display)
+                r matches Ok(w) ==> (*w).out() == (*old(self.writer)).out() + disp(value) && *final(w) == *final(self.writer),
+        { let mut self__ = self;
+            self__.write_str(disp_(value))?;
+            Ok(self__.writer)
+        }
+//@end
+//@extract simple_type::SimpleTypeSerializer::serialize_char | src/se/simple_type.rs :: impl<W: Write> Serializer for SimpleTypeSerializer<W> :: invoke write_primitive :: fn serialize_char | serves=C13 features=serialize macro_files=src/se/mod.rs
+//@rewrite &value.to_string() ==> disp_char_(value)
+        fn serialize_char(self, value: char) -> (r: Result<Self::Ok, Self::Error>)
+            ensures // C13: a character is the one-character string: written ONLY through the escaping table of its position
+                r matches Ok(w) ==> (*w).out() == (*old(self.writer)).out() + spec_escape(char_bytes(value), p_list(self.target, self.level)) && *final(w) == *final(self.writer),
+        {
+            self.serialize_str(disp_char_(value))
+        }
+//@end
+//@extract simple_type::SimpleTypeSerializer::serialize_bytes | src/se/simple_type.rs :: impl<W: Write> Serializer for SimpleTypeSerializer<W> :: invoke write_primitive :: fn serialize_bytes | serves=C13 features=serialize macro_files=src/se/mod.rs n15=1
+        fn serialize_bytes(self, _value: &[u8]) -> (r: Result<Self::Ok, Self::Error>)
+            ensures r is Err, *final(self.writer) == *old(self.writer),
+        {
+            //TODO: customization point - allow user to decide how to encode bytes
+            Err(Self::Error::Unsupported(
+                errmsg_(),
+            ))
+        }
+//@end
+//@extract simple_type::SimpleTypeSerializer::serialize_none | src/se/simple_type.rs :: impl<W: Write> Serializer for SimpleTypeSerializer<W> :: invoke write_primitive :: fn serialize_none | serves=C13 features=serialize macro_files=src/se/mod.rs
+        fn serialize_none(self) -> (r: Result<Self::Ok, Self::Error>)
+            ensures r matches Ok(w) && (*w).out() == (*old(self.writer)).out() && *final(w) == *final(self.writer),
+        {
+            Ok(self.writer)
+        }
+//@end
+//@extract simple_type::SimpleTypeSerializer::serialize_unit_variant | src/se/simple_type.rs :: impl<W: Write> Serializer for SimpleTypeSerializer<W> :: invoke write_primitive :: fn serialize_unit_variant | serves=C13 features=serialize macro_files=src/se/mod.rs
+        fn serialize_unit_variant(
+            self,
+            _name: &'static str,
+            _variant_index: u32,
+            variant: &'static str,
+        ) -> (r: Result<Self::Ok, Self::Error>)
+            ensures // a unit variant is its name, escaped like any other string
+                r matches Ok(w) ==> (*w).out() == (*old(self.writer)).out() + spec_escape(variant.spec_bytes(), p_list(self.target, self.level)) && *final(w) == *final(self.writer),
+        {
+            self.serialize_str(variant)
+        }
+//@end
 }
 
 impl<'w, 'i, W: Write> Serializer for ContentSerializer<'w, 'i, W> {
@@ -820,6 +1113,158 @@ impl<'w, 'i, W: Write> Serializer for ContentSerializer<'w, 'i, W> {
         if !value.is_empty() {
             self.into_simple_type_serializer()?.serialize_str(value)?;
         }
+        Ok(WriteResult::SensitiveText)
+    }
+//@end
+//@extract content::ContentSerializer::serialize_bool | src/se/content.rs :: impl<'w, 'i, W: Write> Serializer for ContentSerializer<'w, 'i, W> :: invoke write_primitive :: fn serialize_bool | serves=C13,C19 features=serialize
+        fn serialize_bool(self, value: bool) -> (r: Result<Self::Ok, Self::Error>)
+            ensures // C19: a number / boolean is classified as text (the code says Text -- surrounding whitespace does not count, an indent may
+                // follow; SensitiveText would obey C19 as well, so both are admitted: never as markup or as nothing);
+                // C13: only its display text reaches the output; refused where primitives are not allowed
+                r is Ok ==> self.allow_primitive,
+                r matches Ok(x) ==> (x is Text || x is SensitiveText) && (*final(self.writer)).out() == (*old(self.writer)).out() + bool_text(value),
+        {
+            self.into_simple_type_serializer()?.serialize_bool(value)?;
+            Ok(WriteResult::Text)
+        }
+//@end
+//@extract content::ContentSerializer::serialize_i8 | src/se/content.rs :: impl<'w, 'i, W: Write> Serializer for ContentSerializer<'w, 'i, W> :: invoke write_primitive :: fn serialize_i8 | serves=C13,C19 features=serialize
+        fn serialize_i8(self, value: i8) -> (r: Result<Self::Ok, Self::Error>)
+            ensures // C19: a number / boolean is classified as text (the code says Text -- surrounding whitespace does not count, an indent may
+                // follow; SensitiveText would obey C19 as well, so both are admitted: never as markup or as nothing);
+                // C13: only its display text reaches the output; refused where primitives are not allowed
+                r is Ok ==> self.allow_primitive,
+                r matches Ok(x) ==> (x is Text || x is SensitiveText) && (*final(self.writer)).out() == (*old(self.writer)).out() + disp(value),
+        {
+            self.into_simple_type_serializer()?.serialize_i8(value)?;
+            Ok(WriteResult::Text)
+        }
+//@end
+//@extract content::ContentSerializer::serialize_i16 | src/se/content.rs :: impl<'w, 'i, W: Write> Serializer for ContentSerializer<'w, 'i, W> :: invoke write_primitive :: fn serialize_i16 | serves=C13,C19 features=serialize
+        fn serialize_i16(self, value: i16) -> (r: Result<Self::Ok, Self::Error>)
+            ensures // C19: a number / boolean is classified as text (the code says Text -- surrounding whitespace does not count, an indent may
+                // follow; SensitiveText would obey C19 as well, so both are admitted: never as markup or as nothing);
+                // C13: only its display text reaches the output; refused where primitives are not allowed
+                r is Ok ==> self.allow_primitive,
+                r matches Ok(x) ==> (x is Text || x is SensitiveText) && (*final(self.writer)).out() == (*old(self.writer)).out() + disp(value),
+        {
+            self.into_simple_type_serializer()?.serialize_i16(value)?;
+            Ok(WriteResult::Text)
+        }
+//@end
+//@extract content::ContentSerializer::serialize_i32 | src/se/content.rs :: impl<'w, 'i, W: Write> Serializer for ContentSerializer<'w, 'i, W> :: invoke write_primitive :: fn serialize_i32 | serves=C13,C19 features=serialize
+        fn serialize_i32(self, value: i32) -> (r: Result<Self::Ok, Self::Error>)
+            ensures // C19: a number / boolean is classified as text (the code says Text -- surrounding whitespace does not count, an indent may
+                // follow; SensitiveText would obey C19 as well, so both are admitted: never as markup or as nothing);
+                // C13: only its display text reaches the output; refused where primitives are not allowed
+                r is Ok ==> self.allow_primitive,
+                r matches Ok(x) ==> (x is Text || x is SensitiveText) && (*final(self.writer)).out() == (*old(self.writer)).out() + disp(value),
+        {
+            self.into_simple_type_serializer()?.serialize_i32(value)?;
+            Ok(WriteResult::Text)
+        }
+//@end
+//@extract content::ContentSerializer::serialize_i64 | src/se/content.rs :: impl<'w, 'i, W: Write> Serializer for ContentSerializer<'w, 'i, W> :: invoke write_primitive :: fn serialize_i64 | serves=C13,C19 features=serialize
+        fn serialize_i64(self, value: i64) -> (r: Result<Self::Ok, Self::Error>)
+            ensures // C19: a number / boolean is classified as text (the code says Text -- surrounding whitespace does not count, an indent may
+                // follow; SensitiveText would obey C19 as well, so both are admitted: never as markup or as nothing);
+                // C13: only its display text reaches the output; refused where primitives are not allowed
+                r is Ok ==> self.allow_primitive,
+                r matches Ok(x) ==> (x is Text || x is SensitiveText) && (*final(self.writer)).out() == (*old(self.writer)).out() + disp(value),
+        {
+            self.into_simple_type_serializer()?.serialize_i64(value)?;
+            Ok(WriteResult::Text)
+        }
+//@end
+//@extract content::ContentSerializer::serialize_u8 | src/se/content.rs :: impl<'w, 'i, W: Write> Serializer for ContentSerializer<'w, 'i, W> :: invoke write_primitive :: fn serialize_u8 | serves=C13,C19 features=serialize
+        fn serialize_u8(self, value: u8) -> (r: Result<Self::Ok, Self::Error>)
+            ensures // C19: a number / boolean is classified as text (the code says Text -- surrounding whitespace does not count, an indent may
+                // follow; SensitiveText would obey C19 as well, so both are admitted: never as markup or as nothing);
+                // C13: only its display text reaches the output; refused where primitives are not allowed
+                r is Ok ==> self.allow_primitive,
+                r matches Ok(x) ==> (x is Text || x is SensitiveText) && (*final(self.writer)).out() == (*old(self.writer)).out() + disp(value),
+        {
+            self.into_simple_type_serializer()?.serialize_u8(value)?;
+            Ok(WriteResult::Text)
+        }
+//@end
+//@extract content::ContentSerializer::serialize_u16 | src/se/content.rs :: impl<'w, 'i, W: Write> Serializer for ContentSerializer<'w, 'i, W> :: invoke write_primitive :: fn serialize_u16 | serves=C13,C19 features=serialize
+        fn serialize_u16(self, value: u16) -> (r: Result<Self::Ok, Self::Error>)
+            ensures // C19: a number / boolean is classified as text (the code says Text -- surrounding whitespace does not count, an indent may
+                // follow; SensitiveText would obey C19 as well, so both are admitted: never as markup or as nothing);
+                // C13: only its display text reaches the output; refused where primitives are not allowed
+                r is Ok ==> self.allow_primitive,
+                r matches Ok(x) ==> (x is Text || x is SensitiveText) && (*final(self.writer)).out() == (*old(self.writer)).out() + disp(value),
+        {
+            self.into_simple_type_serializer()?.serialize_u16(value)?;
+            Ok(WriteResult::Text)
+        }
+//@end
+//@extract content::ContentSerializer::serialize_u32 | src/se/content.rs :: impl<'w, 'i, W: Write> Serializer for ContentSerializer<'w, 'i, W> :: invoke write_primitive :: fn serialize_u32 | serves=C13,C19 features=serialize
+        fn serialize_u32(self, value: u32) -> (r: Result<Self::Ok, Self::Error>)
+            ensures // C19: a number / boolean is classified as text (the code says Text -- surrounding whitespace does not count, an indent may
+                // follow; SensitiveText would obey C19 as well, so both are admitted: never as markup or as nothing);
+                // C13: only its display text reaches the output; refused where primitives are not allowed
+                r is Ok ==> self.allow_primitive,
+                r matches Ok(x) ==> (x is Text || x is SensitiveText) && (*final(self.writer)).out() == (*old(self.writer)).out() + disp(value),
+        {
+            self.into_simple_type_serializer()?.serialize_u32(value)?;
+            Ok(WriteResult::Text)
+        }
+//@end
+//@extract content::ContentSerializer::serialize_u64 | src/se/content.rs :: impl<'w, 'i, W: Write> Serializer for ContentSerializer<'w, 'i, W> :: invoke write_primitive :: fn serialize_u64 | serves=C13,C19 features=serialize
+        fn serialize_u64(self, value: u64) -> (r: Result<Self::Ok, Self::Error>)
+            ensures // C19: a number / boolean is classified as text (the code says Text -- surrounding whitespace does not count, an indent may
+                // follow; SensitiveText would obey C19 as well, so both are admitted: never as markup or as nothing);
+                // C13: only its display text reaches the output; refused where primitives are not allowed
+                r is Ok ==> self.allow_primitive,
+                r matches Ok(x) ==> (x is Text || x is SensitiveText) && (*final(self.writer)).out() == (*old(self.writer)).out() + disp(value),
+        {
+            self.into_simple_type_serializer()?.serialize_u64(value)?;
+            Ok(WriteResult::Text)
+        }
+//@end
+//@extract content::ContentSerializer::serialize_f32 | src/se/content.rs :: impl<'w, 'i, W: Write> Serializer for ContentSerializer<'w, 'i, W> :: invoke write_primitive :: fn serialize_f32 | serves=C13,C19 features=serialize
+        fn serialize_f32(self, value: f32) -> (r: Result<Self::Ok, Self::Error>)
+            ensures // C19: a number / boolean is classified as text (the code says Text -- surrounding whitespace does not count, an indent may
+                // follow; SensitiveText would obey C19 as well, so both are admitted: never as markup or as nothing);
+                // C13: only its display text reaches the output; refused where primitives are not allowed
+                r is Ok ==> self.allow_primitive,
+                r matches Ok(x) ==> (x is Text || x is SensitiveText) && (*final(self.writer)).out() == (*old(self.writer)).out() + disp(value),
+        {
+            self.into_simple_type_serializer()?.serialize_f32(value)?;
+            Ok(WriteResult::Text)
+        }
+//@end
+//@extract content::ContentSerializer::serialize_f64 | src/se/content.rs :: impl<'w, 'i, W: Write> Serializer for ContentSerializer<'w, 'i, W> :: invoke write_primitive :: fn serialize_f64 | serves=C13,C19 features=serialize
+        fn serialize_f64(self, value: f64) -> (r: Result<Self::Ok, Self::Error>)
+            ensures // C19: a number / boolean is classified as text (the code says Text -- surrounding whitespace does not count, an indent may
+                // follow; SensitiveText would obey C19 as well, so both are admitted: never as markup or as nothing);
+                // C13: only its display text reaches the output; refused where primitives are not allowed
+                r is Ok ==> self.allow_primitive,
+                r matches Ok(x) ==> (x is Text || x is SensitiveText) && (*final(self.writer)).out() == (*old(self.writer)).out() + disp(value),
+        {
+            self.into_simple_type_serializer()?.serialize_f64(value)?;
+            Ok(WriteResult::Text)
+        }
+//@end
+//@extract content::ContentSerializer::serialize_bytes | src/se/content.rs :: impl<'w, 'i, W: Write> Serializer for ContentSerializer<'w, 'i, W> :: invoke write_primitive :: fn serialize_bytes | serves=C13,C19 features=serialize
+        fn serialize_bytes(self, value: &[u8]) -> (r: Result<Self::Ok, Self::Error>)
+            // bytes are not supported: an error, never an invented encoding
+            ensures r is Err,
+        {
+            self.into_simple_type_serializer()?.serialize_bytes(value)?;
+            Ok(WriteResult::Text)
+        }
+//@end
+//@extract content::ContentSerializer::serialize_char | src/se/content.rs :: impl<'w, 'i, W: Write> Serializer for ContentSerializer<'w, 'i, W> :: fn serialize_char | serves=C13,C19 features=serialize
+    fn serialize_char(self, value: char) -> (r: Result<Self::Ok, Self::Error>)
+            ensures // C19: a character is text in which whitespace counts -- no indent after it; C13: escaped by the Text table of the level in force
+                r is Ok ==> self.allow_primitive,
+                r matches Ok(x) ==> x is SensitiveText
+                    && (*final(self.writer)).out() == (*old(self.writer)).out() + spec_escape(char_bytes(value), p_list(QuoteTarget::Text, self.level)),
+        {
+        self.into_simple_type_serializer()?.serialize_char(value)?;
         Ok(WriteResult::SensitiveText)
     }
 //@end
@@ -936,6 +1381,146 @@ impl<'w, 'k, W: Write> Serializer for ElementSerializer<'w, 'k, W> {
                 .write_wrapped(self.key, |ser| ser.serialize_str(value))
         }
     }
+//@end
+//@extract element::ElementSerializer::serialize_bool | src/se/element.rs :: impl<'w, 'k, W: Write> Serializer for ElementSerializer<'w, 'k, W> :: invoke write_primitive :: fn serialize_bool | serves=C13,C19 features=serialize
+        fn serialize_bool(self, value: bool) -> (r: Result<Self::Ok, Self::Error>)
+            // C13: `<key>` + the text of the value + `</key>` with the SAME validated name; C19: markup (after the indent, if due)
+            ensures r matches Ok(x) ==> x is Element && (*final(self.ser.writer)).out() == (*old(self.ser.writer)).out() + self.ser.pre()
+                + tag_open(self.key.0.spec_bytes()) + bool_text(value) + tag_close(self.key.0.spec_bytes()),
+        {
+            self.ser.write_wrapped(self.key, |ser: SimpleTypeSerializer<&mut W>| -> (w: Result<&mut W, SeError>)
+                ensures w matches Ok(w2) ==> (*w2).out() == (*old(ser.writer)).out() + bool_text(value) && *final(w2) == *final(ser.writer)
+                { ser.serialize_bool(value) })
+        }
+//@end
+//@extract element::ElementSerializer::serialize_i8 | src/se/element.rs :: impl<'w, 'k, W: Write> Serializer for ElementSerializer<'w, 'k, W> :: invoke write_primitive :: fn serialize_i8 | serves=C13,C19 features=serialize
+        fn serialize_i8(self, value: i8) -> (r: Result<Self::Ok, Self::Error>)
+            ensures r matches Ok(x) ==> x is Element && (*final(self.ser.writer)).out() == (*old(self.ser.writer)).out() + self.ser.pre()
+                + tag_open(self.key.0.spec_bytes()) + disp(value) + tag_close(self.key.0.spec_bytes()),
+        {
+            self.ser.write_wrapped(self.key, |ser: SimpleTypeSerializer<&mut W>| -> (w: Result<&mut W, SeError>)
+                ensures w matches Ok(w2) ==> (*w2).out() == (*old(ser.writer)).out() + disp(value) && *final(w2) == *final(ser.writer)
+                { ser.serialize_i8(value) })
+        }
+//@end
+//@extract element::ElementSerializer::serialize_i16 | src/se/element.rs :: impl<'w, 'k, W: Write> Serializer for ElementSerializer<'w, 'k, W> :: invoke write_primitive :: fn serialize_i16 | serves=C13,C19 features=serialize
+        fn serialize_i16(self, value: i16) -> (r: Result<Self::Ok, Self::Error>)
+            // C13: `<key>` + the text of the value + `</key>` with the SAME validated name; C19: markup (after the indent, if due)
+            ensures r matches Ok(x) ==> x is Element && (*final(self.ser.writer)).out() == (*old(self.ser.writer)).out() + self.ser.pre()
+                + tag_open(self.key.0.spec_bytes()) + disp(value) + tag_close(self.key.0.spec_bytes()),
+        {
+            self.ser.write_wrapped(self.key, |ser: SimpleTypeSerializer<&mut W>| -> (w: Result<&mut W, SeError>)
+                ensures w matches Ok(w2) ==> (*w2).out() == (*old(ser.writer)).out() + disp(value) && *final(w2) == *final(ser.writer)
+                { ser.serialize_i16(value) })
+        }
+//@end
+//@extract element::ElementSerializer::serialize_i32 | src/se/element.rs :: impl<'w, 'k, W: Write> Serializer for ElementSerializer<'w, 'k, W> :: invoke write_primitive :: fn serialize_i32 | serves=C13,C19 features=serialize
+        fn serialize_i32(self, value: i32) -> (r: Result<Self::Ok, Self::Error>)
+            // C13: `<key>` + the text of the value + `</key>` with the SAME validated name; C19: markup (after the indent, if due)
+            ensures r matches Ok(x) ==> x is Element && (*final(self.ser.writer)).out() == (*old(self.ser.writer)).out() + self.ser.pre()
+                + tag_open(self.key.0.spec_bytes()) + disp(value) + tag_close(self.key.0.spec_bytes()),
+        {
+            self.ser.write_wrapped(self.key, |ser: SimpleTypeSerializer<&mut W>| -> (w: Result<&mut W, SeError>)
+                ensures w matches Ok(w2) ==> (*w2).out() == (*old(ser.writer)).out() + disp(value) && *final(w2) == *final(ser.writer)
+                { ser.serialize_i32(value) })
+        }
+//@end
+//@extract element::ElementSerializer::serialize_i64 | src/se/element.rs :: impl<'w, 'k, W: Write> Serializer for ElementSerializer<'w, 'k, W> :: invoke write_primitive :: fn serialize_i64 | serves=C13,C19 features=serialize
+        fn serialize_i64(self, value: i64) -> (r: Result<Self::Ok, Self::Error>)
+            // C13: `<key>` + the text of the value + `</key>` with the SAME validated name; C19: markup (after the indent, if due)
+            ensures r matches Ok(x) ==> x is Element && (*final(self.ser.writer)).out() == (*old(self.ser.writer)).out() + self.ser.pre()
+                + tag_open(self.key.0.spec_bytes()) + disp(value) + tag_close(self.key.0.spec_bytes()),
+        {
+            self.ser.write_wrapped(self.key, |ser: SimpleTypeSerializer<&mut W>| -> (w: Result<&mut W, SeError>)
+                ensures w matches Ok(w2) ==> (*w2).out() == (*old(ser.writer)).out() + disp(value) && *final(w2) == *final(ser.writer)
+                { ser.serialize_i64(value) })
+        }
+//@end
+//@extract element::ElementSerializer::serialize_u8 | src/se/element.rs :: impl<'w, 'k, W: Write> Serializer for ElementSerializer<'w, 'k, W> :: invoke write_primitive :: fn serialize_u8 | serves=C13,C19 features=serialize
+        fn serialize_u8(self, value: u8) -> (r: Result<Self::Ok, Self::Error>)
+            // C13: `<key>` + the text of the value + `</key>` with the SAME validated name; C19: markup (after the indent, if due)
+            ensures r matches Ok(x) ==> x is Element && (*final(self.ser.writer)).out() == (*old(self.ser.writer)).out() + self.ser.pre()
+                + tag_open(self.key.0.spec_bytes()) + disp(value) + tag_close(self.key.0.spec_bytes()),
+        {
+            self.ser.write_wrapped(self.key, |ser: SimpleTypeSerializer<&mut W>| -> (w: Result<&mut W, SeError>)
+                ensures w matches Ok(w2) ==> (*w2).out() == (*old(ser.writer)).out() + disp(value) && *final(w2) == *final(ser.writer)
+                { ser.serialize_u8(value) })
+        }
+//@end
+//@extract element::ElementSerializer::serialize_u16 | src/se/element.rs :: impl<'w, 'k, W: Write> Serializer for ElementSerializer<'w, 'k, W> :: invoke write_primitive :: fn serialize_u16 | serves=C13,C19 features=serialize
+        fn serialize_u16(self, value: u16) -> (r: Result<Self::Ok, Self::Error>)
+            // C13: `<key>` + the text of the value + `</key>` with the SAME validated name; C19: markup (after the indent, if due)
+            ensures r matches Ok(x) ==> x is Element && (*final(self.ser.writer)).out() == (*old(self.ser.writer)).out() + self.ser.pre()
+                + tag_open(self.key.0.spec_bytes()) + disp(value) + tag_close(self.key.0.spec_bytes()),
+        {
+            self.ser.write_wrapped(self.key, |ser: SimpleTypeSerializer<&mut W>| -> (w: Result<&mut W, SeError>)
+                ensures w matches Ok(w2) ==> (*w2).out() == (*old(ser.writer)).out() + disp(value) && *final(w2) == *final(ser.writer)
+                { ser.serialize_u16(value) })
+        }
+//@end
+//@extract element::ElementSerializer::serialize_u32 | src/se/element.rs :: impl<'w, 'k, W: Write> Serializer for ElementSerializer<'w, 'k, W> :: invoke write_primitive :: fn serialize_u32 | serves=C13,C19 features=serialize
+        fn serialize_u32(self, value: u32) -> (r: Result<Self::Ok, Self::Error>)
+            // C13: `<key>` + the text of the value + `</key>` with the SAME validated name; C19: markup (after the indent, if due)
+            ensures r matches Ok(x) ==> x is Element && (*final(self.ser.writer)).out() == (*old(self.ser.writer)).out() + self.ser.pre()
+                + tag_open(self.key.0.spec_bytes()) + disp(value) + tag_close(self.key.0.spec_bytes()),
+        {
+            self.ser.write_wrapped(self.key, |ser: SimpleTypeSerializer<&mut W>| -> (w: Result<&mut W, SeError>)
+                ensures w matches Ok(w2) ==> (*w2).out() == (*old(ser.writer)).out() + disp(value) && *final(w2) == *final(ser.writer)
+                { ser.serialize_u32(value) })
+        }
+//@end
+//@extract element::ElementSerializer::serialize_u64 | src/se/element.rs :: impl<'w, 'k, W: Write> Serializer for ElementSerializer<'w, 'k, W> :: invoke write_primitive :: fn serialize_u64 | serves=C13,C19 features=serialize
+        fn serialize_u64(self, value: u64) -> (r: Result<Self::Ok, Self::Error>)
+            // C13: `<key>` + the text of the value + `</key>` with the SAME validated name; C19: markup (after the indent, if due)
+            ensures r matches Ok(x) ==> x is Element && (*final(self.ser.writer)).out() == (*old(self.ser.writer)).out() + self.ser.pre()
+                + tag_open(self.key.0.spec_bytes()) + disp(value) + tag_close(self.key.0.spec_bytes()),
+        {
+            self.ser.write_wrapped(self.key, |ser: SimpleTypeSerializer<&mut W>| -> (w: Result<&mut W, SeError>)
+                ensures w matches Ok(w2) ==> (*w2).out() == (*old(ser.writer)).out() + disp(value) && *final(w2) == *final(ser.writer)
+                { ser.serialize_u64(value) })
+        }
+//@end
+//@extract element::ElementSerializer::serialize_f32 | src/se/element.rs :: impl<'w, 'k, W: Write> Serializer for ElementSerializer<'w, 'k, W> :: invoke write_primitive :: fn serialize_f32 | serves=C13,C19 features=serialize
+        fn serialize_f32(self, value: f32) -> (r: Result<Self::Ok, Self::Error>)
+            // C13: `<key>` + the text of the value + `</key>` with the SAME validated name; C19: markup (after the indent, if due)
+            ensures r matches Ok(x) ==> x is Element && (*final(self.ser.writer)).out() == (*old(self.ser.writer)).out() + self.ser.pre()
+                + tag_open(self.key.0.spec_bytes()) + disp(value) + tag_close(self.key.0.spec_bytes()),
+        {
+            self.ser.write_wrapped(self.key, |ser: SimpleTypeSerializer<&mut W>| -> (w: Result<&mut W, SeError>)
+                ensures w matches Ok(w2) ==> (*w2).out() == (*old(ser.writer)).out() + disp(value) && *final(w2) == *final(ser.writer)
+                { ser.serialize_f32(value) })
+        }
+//@end
+//@extract element::ElementSerializer::serialize_f64 | src/se/element.rs :: impl<'w, 'k, W: Write> Serializer for ElementSerializer<'w, 'k, W> :: invoke write_primitive :: fn serialize_f64 | serves=C13,C19 features=serialize
+        fn serialize_f64(self, value: f64) -> (r: Result<Self::Ok, Self::Error>)
+            // C13: `<key>` + the text of the value + `</key>` with the SAME validated name; C19: markup (after the indent, if due)
+            ensures r matches Ok(x) ==> x is Element && (*final(self.ser.writer)).out() == (*old(self.ser.writer)).out() + self.ser.pre()
+                + tag_open(self.key.0.spec_bytes()) + disp(value) + tag_close(self.key.0.spec_bytes()),
+        {
+            self.ser.write_wrapped(self.key, |ser: SimpleTypeSerializer<&mut W>| -> (w: Result<&mut W, SeError>)
+                ensures w matches Ok(w2) ==> (*w2).out() == (*old(ser.writer)).out() + disp(value) && *final(w2) == *final(ser.writer)
+                { ser.serialize_f64(value) })
+        }
+//@end
+//@extract element::ElementSerializer::serialize_char | src/se/element.rs :: impl<'w, 'k, W: Write> Serializer for ElementSerializer<'w, 'k, W> :: invoke write_primitive :: fn serialize_char | serves=C13,C19 features=serialize
+        fn serialize_char(self, value: char) -> (r: Result<Self::Ok, Self::Error>)
+            // C13: `<key>` + the text of the value + `</key>` with the SAME validated name; C19: markup (after the indent, if due)
+            ensures r matches Ok(x) ==> x is Element && (*final(self.ser.writer)).out() == (*old(self.ser.writer)).out() + self.ser.pre()
+                + tag_open(self.key.0.spec_bytes()) + spec_escape(char_bytes(value), p_list(QuoteTarget::Text, self.ser.level)) + tag_close(self.key.0.spec_bytes()),
+        {
+            self.ser.write_wrapped(self.key, |ser: SimpleTypeSerializer<&mut W>| -> (w: Result<&mut W, SeError>)
+                ensures w matches Ok(w2) ==> (*w2).out() == (*old(ser.writer)).out() + spec_escape(char_bytes(value), p_list(ser.target, ser.level)) && *final(w2) == *final(ser.writer)
+                { ser.serialize_char(value) })
+        }
+//@end
+//@extract element::ElementSerializer::serialize_bytes | src/se/element.rs :: impl<'w, 'k, W: Write> Serializer for ElementSerializer<'w, 'k, W> :: invoke write_primitive :: fn serialize_bytes | serves=C13,C19 features=serialize
+        fn serialize_bytes(self, value: &[u8]) -> (r: Result<Self::Ok, Self::Error>)
+            ensures r is Err
+        {
+            self.ser.write_wrapped(self.key, |ser: SimpleTypeSerializer<&mut W>| -> (w: Result<&mut W, SeError>)
+                ensures w is Err
+                { ser.serialize_bytes(value) })
+        }
 //@end
 //@extract element::ElementSerializer::serialize_none | src/se/element.rs :: impl<'w, 'k, W: Write> Serializer for ElementSerializer<'w, 'k, W> :: fn serialize_none | serves=C13 features=serialize
     /// By serde contract we should serialize key of [`None`] values. If someone
@@ -1436,6 +2021,136 @@ impl<'a, W: Write> Serializer for AtomicSerializer<&'a mut W> {
     fn serialize_seq(self, _len: Option<usize>) -> (r: Result<Self::SerializeSeq, Self::Error>)
         ensures r is Err
     {
+        Err(SeError::Unsupported(
+            errmsg_(),
+        ))
+    }
+//@end
+//@extract simple_type::AtomicSerializer::serialize_bool | src/se/simple_type.rs :: impl<W: Write> Serializer for AtomicSerializer<W> :: fn serialize_bool | serves=C13 features=serialize
+    fn serialize_bool(self, value: bool) -> (r: Result<Self::Ok, Self::Error>)
+            ensures r matches Ok(b) ==> b && (*final(self.writer)).out() == (*old(self.writer)).out() + (if self.write_delimiter { seq![0x20u8] } else { BSeq::empty() }) + bool_text(value),
+        { let mut self__ = self;
+        self__.write_str(if value { "true" } else { "false" })?;
+        Ok(true)
+    }
+//@end
+//@extract simple_type::AtomicSerializer::serialize_i8 | src/se/simple_type.rs :: impl<W: Write> Serializer for AtomicSerializer<W> :: invoke write_atomic :: fn serialize_i8 | serves=C13 features=serialize
+//@rewrite &value.to_string() ==> disp_(value)
+        fn serialize_i8(self, value: i8) -> (r: Result<Self::Ok, Self::Error>)
+            ensures // an item that is a number: the delimiter (between items only), then its display text; reported as written
+                r matches Ok(b) ==> b && (*final(self.writer)).out() == (*old(self.writer)).out() + (if self.write_delimiter { seq![0x20u8] } else { BSeq::empty() }) + disp(value),
+        { let mut self__ = self;
+            self__.write_str(disp_(value))?;
+            Ok(true)
+        }
+//@end
+//@extract simple_type::AtomicSerializer::serialize_i16 | src/se/simple_type.rs :: impl<W: Write> Serializer for AtomicSerializer<W> :: invoke write_atomic :: fn serialize_i16 | serves=C13 features=serialize
+//@rewrite &value.to_string() ==> disp_(value)
+        fn serialize_i16(self, value: i16) -> (r: Result<Self::Ok, Self::Error>)
+            ensures // an item that is a number: the delimiter (between items only), then its display text; reported as written
+                r matches Ok(b) ==> b && (*final(self.writer)).out() == (*old(self.writer)).out() + (if self.write_delimiter { seq![0x20u8] } else { BSeq::empty() }) + disp(value),
+        { let mut self__ = self;
+            self__.write_str(disp_(value))?;
+            Ok(true)
+        }
+//@end
+//@extract simple_type::AtomicSerializer::serialize_i32 | src/se/simple_type.rs :: impl<W: Write> Serializer for AtomicSerializer<W> :: invoke write_atomic :: fn serialize_i32 | serves=C13 features=serialize
+//@rewrite &value.to_string() ==> disp_(value)
+        fn serialize_i32(self, value: i32) -> (r: Result<Self::Ok, Self::Error>)
+            ensures // an item that is a number: the delimiter (between items only), then its display text; reported as written
+                r matches Ok(b) ==> b && (*final(self.writer)).out() == (*old(self.writer)).out() + (if self.write_delimiter { seq![0x20u8] } else { BSeq::empty() }) + disp(value),
+        { let mut self__ = self;
+            self__.write_str(disp_(value))?;
+            Ok(true)
+        }
+//@end
+//@extract simple_type::AtomicSerializer::serialize_i64 | src/se/simple_type.rs :: impl<W: Write> Serializer for AtomicSerializer<W> :: invoke write_atomic :: fn serialize_i64 | serves=C13 features=serialize
+//@rewrite &value.to_string() ==> disp_(value)
+        fn serialize_i64(self, value: i64) -> (r: Result<Self::Ok, Self::Error>)
+            ensures // an item that is a number: the delimiter (between items only), then its display text; reported as written
+                r matches Ok(b) ==> b && (*final(self.writer)).out() == (*old(self.writer)).out() + (if self.write_delimiter { seq![0x20u8] } else { BSeq::empty() }) + disp(value),
+        { let mut self__ = self;
+            self__.write_str(disp_(value))?;
+            Ok(true)
+        }
+//@end
+//@extract simple_type::AtomicSerializer::serialize_u8 | src/se/simple_type.rs :: impl<W: Write> Serializer for AtomicSerializer<W> :: invoke write_atomic :: fn serialize_u8 | serves=C13 features=serialize
+//@rewrite &value.to_string() ==> disp_(value)
+        fn serialize_u8(self, value: u8) -> (r: Result<Self::Ok, Self::Error>)
+            ensures // an item that is a number: the delimiter (between items only), then its display text; reported as written
+                r matches Ok(b) ==> b && (*final(self.writer)).out() == (*old(self.writer)).out() + (if self.write_delimiter { seq![0x20u8] } else { BSeq::empty() }) + disp(value),
+        { let mut self__ = self;
+            self__.write_str(disp_(value))?;
+            Ok(true)
+        }
+//@end
+//@extract simple_type::AtomicSerializer::serialize_u16 | src/se/simple_type.rs :: impl<W: Write> Serializer for AtomicSerializer<W> :: invoke write_atomic :: fn serialize_u16 | serves=C13 features=serialize
+//@rewrite &value.to_string() ==> disp_(value)
+        fn serialize_u16(self, value: u16) -> (r: Result<Self::Ok, Self::Error>)
+            ensures // an item that is a number: the delimiter (between items only), then its display text; reported as written
+                r matches Ok(b) ==> b && (*final(self.writer)).out() == (*old(self.writer)).out() + (if self.write_delimiter { seq![0x20u8] } else { BSeq::empty() }) + disp(value),
+        { let mut self__ = self;
+            self__.write_str(disp_(value))?;
+            Ok(true)
+        }
+//@end
+//@extract simple_type::AtomicSerializer::serialize_u32 | src/se/simple_type.rs :: impl<W: Write> Serializer for AtomicSerializer<W> :: invoke write_atomic :: fn serialize_u32 | serves=C13 features=serialize
+//@rewrite &value.to_string() ==> disp_(value)
+        fn serialize_u32(self, value: u32) -> (r: Result<Self::Ok, Self::Error>)
+            ensures // an item that is a number: the delimiter (between items only), then its display text; reported as written
+                r matches Ok(b) ==> b && (*final(self.writer)).out() == (*old(self.writer)).out() + (if self.write_delimiter { seq![0x20u8] } else { BSeq::empty() }) + disp(value),
+        { let mut self__ = self;
+            self__.write_str(disp_(value))?;
+            Ok(true)
+        }
+//@end
+//@extract simple_type::AtomicSerializer::serialize_u64 | src/se/simple_type.rs :: impl<W: Write> Serializer for AtomicSerializer<W> :: invoke write_atomic :: fn serialize_u64 | serves=C13 features=serialize
+//@rewrite &value.to_string() ==> disp_(value)
+        fn serialize_u64(self, value: u64) -> (r: Result<Self::Ok, Self::Error>)
+            ensures // an item that is a number: the delimiter (between items only), then its display text; reported as written
+                r matches Ok(b) ==> b && (*final(self.writer)).out() == (*old(self.writer)).out() + (if self.write_delimiter { seq![0x20u8] } else { BSeq::empty() }) + disp(value),
+        { let mut self__ = self;
+            self__.write_str(disp_(value))?;
+            Ok(true)
+        }
+//@end
+//@extract simple_type::AtomicSerializer::serialize_f32 | src/se/simple_type.rs :: impl<W: Write> Serializer for AtomicSerializer<W> :: invoke write_atomic :: fn serialize_f32 | serves=C13 features=serialize
+//@rewrite &value.to_string() ==> disp_(value)
+        fn serialize_f32(self, value: f32) -> (r: Result<Self::Ok, Self::Error>)
+            ensures // an item that is a number: the delimiter (between items only), then its display text; reported as written
+                r matches Ok(b) ==> b && (*final(self.writer)).out() == (*old(self.writer)).out() + (if self.write_delimiter { seq![0x20u8] } else { BSeq::empty() }) + disp(value),
+        { let mut self__ = self;
+            self__.write_str(disp_(value))?;
+            Ok(true)
+        }
+//@end
+//@extract simple_type::AtomicSerializer::serialize_f64 | src/se/simple_type.rs :: impl<W: Write> Serializer for AtomicSerializer<W> :: invoke write_atomic :: fn serialize_f64 | serves=C13 features=serialize
+//@rewrite &value.to_string() ==> disp_(value)
+        fn serialize_f64(self, value: f64) -> (r: Result<Self::Ok, Self::Error>)
+            ensures // an item that is a number: the delimiter (between items only), then its display text; reported as written
+                r matches Ok(b) ==> b && (*final(self.writer)).out() == (*old(self.writer)).out() + (if self.write_delimiter { seq![0x20u8] } else { BSeq::empty() }) + disp(value),
+        { let mut self__ = self;
+            self__.write_str(disp_(value))?;
+            Ok(true)
+        }
+//@end
+//@extract simple_type::AtomicSerializer::serialize_char | src/se/simple_type.rs :: impl<W: Write> Serializer for AtomicSerializer<W> :: fn serialize_char | serves=C13 features=serialize
+//@rewrite &value.to_string() ==> disp_char_(value)
+    fn serialize_char(self, value: char) -> (r: Result<Self::Ok, Self::Error>)
+            ensures // C13: a character item goes through the item table like any string item
+                r matches Ok(b) ==> b == (char_bytes(value).len() > 0)
+                && (*final(self.writer)).out() == (*old(self.writer)).out()
+                    + (if b && self.write_delimiter { seq![0x20u8] } else { BSeq::empty() })
+                    + spec_escape(char_bytes(value), p_item(self.target, self.level)),
+        {
+        self.serialize_str(disp_char_(value))
+    }
+//@end
+//@extract simple_type::AtomicSerializer::serialize_bytes | src/se/simple_type.rs :: impl<W: Write> Serializer for AtomicSerializer<W> :: fn serialize_bytes | serves=C13 features=serialize n15=1
+    fn serialize_bytes(self, _value: &[u8]) -> (r: Result<Self::Ok, Self::Error>)
+            ensures r is Err, *final(self.writer) == *old(self.writer),
+        {
+        //TODO: Customization point - allow user to decide how to encode bytes
         Err(SeError::Unsupported(
             errmsg_(),
         ))
